@@ -39,7 +39,10 @@ func (ex *Exec) atReturn(st *State, r *ssa.Return) {
 			ex.ghostUpdate(st, e, g)
 		}
 	}
-	for _, c := range ex.cons {
+	// general contracts (included / refined) are judged first, the function's own postconditions last,
+	// so that a specific clause that fails (and is then assumed) cannot mask a general one
+	order := append(append([]*Contract{}, ex.cons[1:]...), ex.cons[0])
+	for _, c := range order {
 		e := ex.envFor(st, c)
 		ex.bindSelf(st, c, e)
 		if len(c.Results) != len(results) {
